@@ -217,7 +217,18 @@ structure Cfg where
   the guard handed to the wait); `false` = the loop re-locks / drops the guard in between -/
   creditAtomic : Bool
   reconnectAtomic : Bool
+  /-- the deadline test of the loop reads the monotonic clock on every pass (`let now = Instant::now();
+  if now >= deadline`) and the wait is handed `deadline - now`.  `false` = any other form (a sticky
+  `timed_out()` flag, a duration computed once, …): pessimistically, such a test may never fire. -/
+  creditClock : Bool
+  reconnectClock : Bool
+  /-- every notification in the signalling methods is `notify_all` (false: some `notify_one`) -/
+  notifyAll : Bool
   deriving DecidableEq, Repr
+
+def Cfg.clockOf (c : Cfg) : Kind → Bool
+  | .credit _ => c.creditClock
+  | .reconnect => c.reconnectClock
 
 def Cfg.atomicOf (c : Cfg) : Kind → Bool
   | .credit _ => c.creditAtomic
@@ -254,7 +265,7 @@ def step (c : Cfg) (k : Kind) (st : St) : Ev → St
     else st
   | .check e =>
     if st.pc = .checking then
-      match runBody k e (c.loopOf k) st.sh with
+      match runBody k (e && c.clockOf k) (c.loopOf k) st.sh with
       | some (sh', pc') => ⟨sh', if pc' = .parked ∧ c.atomicOf k = false then .preparking else pc', false⟩
       | none => st
     else st
